@@ -172,6 +172,17 @@ func NewSP(c Config) *saml.ServiceProvider {
 // instant now for outstanding request reqID: one assertion with one bearer
 // confirmation, both levels carrying issuer, destination, recipient, audience,
 // InResponseTo and comfortable validity windows.  Nothing is signed yet.
+// Retrust reconfigures a long-lived ServiceProvider value to another trust configuration,
+// the way an application refreshes IdP metadata (key rotation, a retired key) or changes its
+// pinning: the public trust fields are replaced, the ServiceProvider value stays the same.
+func Retrust(sp *saml.ServiceProvider, trust string) {
+	n := NewSP(Config{Trust: trust})
+	sp.IDPMetadata = n.IDPMetadata
+	sp.IDPCertificate = n.IDPCertificate
+	sp.IDPCertificateFingerprint = n.IDPCertificateFingerprint
+	sp.IDPCertificateFingerprintAlgorithm = n.IDPCertificateFingerprintAlgorithm
+}
+
 func Baseline(now time.Time, reqID string, audience string) forge.ResponseSpec {
 	if audience == "" {
 		audience = SPEntity
